@@ -25,8 +25,9 @@ pub mod w1 {
         mk = |v, x| ArchFooComponents { ca: CA(v) },
         un = |c| (c.ca.0, 0, true),
         get = |a, i| (a.get_slice::<CA>()[i].0, 0, true),
-        first = CA, |c| c.0
+        first = CA, 1, |c| c.0
     );
+    crate::paths_impl!(Foo, ArchFoo, ArchFooComponents, |v, x| [(ca, CA, CA(v))]);
 
     crate::model_arch!(
         Bar, W1, |cap| W1::with_capacity(W1Capacity { arch_foo: 0, arch_bar: cap }),
@@ -34,8 +35,9 @@ pub mod w1 {
         mk = |v, x| ArchBarComponents { ca: CA(v), cb: CB(x as u16) },
         un = |c| (c.ca.0, c.cb.0 as u32, true),
         get = |a, i| (a.get_slice::<CA>()[i].0, a.get_slice::<CB>()[i].0 as u32, true),
-        first = CA, |c| c.0
+        first = CA, 1, |c| c.0
     );
+    crate::paths_impl!(Bar, ArchBar, ArchBarComponents, |v, x| [(ca, CA, CA(v)), (cb, CB, CB(x as u16))]);
 }
 
 /// W3: `ArchTri` has three columns of different size/alignment — a byte, a padded `repr(C)`
@@ -71,8 +73,9 @@ pub mod w3 {
             let pad = a.get_slice::<Pad>()[i];
             (p, pad.1, pad.0 == p ^ 0x5a)
         },
-        first = P, |c| c.0
+        first = P, 1, |c| c.0
     );
+    crate::paths_impl!(Tri, ArchTri, ArchTriComponents, |v, x| [(p, P, P(v)), (pad, Pad, Pad(v ^ 0x5a, x)), (zs, Zs, Zs)]);
 
     crate::model_arch!(
         Other, W3, |cap| W3::with_capacity(W3Capacity { arch_tri: 0, arch_other: cap }),
@@ -80,8 +83,9 @@ pub mod w3 {
         mk = |v, x| ArchOtherComponents { q: Q(x as u16), p: P(v) },
         un = |c| (c.p.0, c.q.0 as u32, true),
         get = |a, i| (a.get_slice::<P>()[i].0, a.get_slice::<Q>()[i].0 as u32, true),
-        first = P, |c| c.0
+        first = P, 2, |c| c.0
     );
+    crate::paths_impl!(Other, ArchOther, ArchOtherComponents, |v, x| [(q, Q, Q(x as u16)), (p, P, P(v))]);
 }
 
 /// W16: one archetype with the maximum default number of columns (Storage16, implicit id 0).
@@ -128,6 +132,101 @@ pub mod w16 {
             ]);
             (v, x, ok)
         },
-        first = B0, |c| c.0
+        first = B0, 1, |c| c.0
+    );
+}
+
+impl w3::W3 {
+    /// A W3 world with the given capacities for both archetypes.
+    pub fn both(tri: usize, other: usize) -> w3::W3 {
+        use gecs::prelude::*;
+        w3::W3::with_capacity(w3::W3Capacity { arch_tri: tri, arch_other: other })
+    }
+}
+
+impl w1::W1 {
+    pub fn both(foo: usize, bar: usize) -> w1::W1 {
+        use gecs::prelude::*;
+        w1::W1::with_capacity(w1::W1Capacity { arch_foo: foo, arch_bar: bar })
+    }
+}
+
+/// WT: token components with ghost-counting `Drop`/`Clone` (one of them zero-sized).
+/// Token ids are < 8 for originals; a clone of token `i` gets id `i + 8`.
+pub mod wt {
+    use gecs::prelude::*;
+
+    pub static mut DROPS: [u8; 16] = [0; 16];
+    pub static mut CLONES: [u8; 16] = [0; 16];
+    pub static mut ZDROPS: u8 = 0;
+    pub static mut ZCLONES: u8 = 0;
+    /// Optional callback run at the start of every `Tok::clone` / `Tok::drop` (C10: the k-th
+    /// callback is a point where user code may panic).
+    pub static mut ON_CLONE: Option<fn(u8)> = None;
+    pub static mut ON_DROP: Option<fn(u8)> = None;
+
+    pub struct Tok(pub u8);
+    pub struct Zt;
+
+    impl Clone for Tok {
+        fn clone(&self) -> Self {
+            unsafe {
+                if let Some(f) = ON_CLONE {
+                    f(self.0);
+                }
+                assert!(self.0 < 8, "a clone was cloned or a garbage token was read");
+                CLONES[self.0 as usize] += 1;
+            }
+            Tok(self.0 + 8)
+        }
+    }
+    impl Drop for Tok {
+        fn drop(&mut self) {
+            unsafe {
+                if let Some(f) = ON_DROP {
+                    f(self.0);
+                }
+                assert!(self.0 < 16, "a garbage token was dropped");
+                DROPS[self.0 as usize] += 1;
+                assert!(DROPS[self.0 as usize] == 1, "a component value was dropped twice");
+            }
+        }
+    }
+    impl Clone for Zt {
+        fn clone(&self) -> Self {
+            unsafe { ZCLONES += 1 };
+            Zt
+        }
+    }
+    impl Drop for Zt {
+        fn drop(&mut self) {
+            unsafe { ZDROPS += 1 };
+        }
+    }
+
+    pub fn reset() {
+        unsafe {
+            DROPS = [0; 16];
+            CLONES = [0; 16];
+            ZDROPS = 0;
+            ZCLONES = 0;
+            ON_CLONE = None;
+            ON_DROP = None;
+        }
+    }
+
+    ecs_world! {
+        ecs_name!(WT);
+        #[archetype_id(9)]
+        ecs_archetype!(ArchTok, Tok, Zt);
+    }
+
+    crate::model_arch!(
+        TokM, WT, |cap| WT::with_capacity(WTCapacity { arch_tok: cap }),
+        ArchTok, arch_tok, 9, 2, 0,
+        mk = |v, x| ArchTokComponents { tok: Tok(v), zt: Zt },
+        un = |c| (c.tok.0, 0, true),
+        get = |a, i| (a.get_slice::<Tok>()[i].0, 0, true),
+        first = Tok, 1, |c| c.0
     );
 }
